@@ -7,7 +7,7 @@ OffsetsDict is declared dict-like, so `tp in pending_offsets`, `pending_offsets[
 
 C07: "A read-committed reader sees ... all offset commits of a transaction whose commit_transaction() returned
 successfully and none of a transaction that was aborted": whether EndTxn is sent at all is decided from
-_txn_partitions / _txn_consumer_group (is_empty_transaction; the hook in Sender._do_txn_commit). Acknowledging an
+_txn_partitions / _txn_consumer_groups (is_empty_transaction; the hook in Sender._do_txn_commit). Acknowledging an
 offset must therefore leave the fact "a consumer group is part of this transaction" alone; it only takes the
 acknowledged offset off the pending entry and, with the last one, resolves the application's future."""
 from pyvc.contract import contract, classmodel, specfn, SPEC_TYPES, CLASSES
@@ -44,6 +44,6 @@ def _(c):
               " and forall(lambda j: implies(0 <= j < len(self._pending_txn_offsets),"
               " self._pending_txn_offsets[j] == old(self._pending_txn_offsets)[j + 1])))"
               " and implies(not " + HEAD + "[2].done(), self._pending_txn_offsets == old(self._pending_txn_offsets))")
-    # frame (not in `modifies`): state, _txn_partitions, _pending_txn_partitions, _txn_consumer_group, the waiters
-    c.ensures("the-group-stays-part-of-the-transaction", "self._txn_consumer_group == old(self._txn_consumer_group)"
+    # frame (not in `modifies`): state, _txn_partitions, _pending_txn_partitions, _txn_consumer_groups, the waiters
+    c.ensures("the-group-stays-part-of-the-transaction", "self._txn_consumer_groups == old(self._txn_consumer_groups)"
               " and self._txn_partitions == old(self._txn_partitions) and self.state == old(self.state)")
